@@ -886,14 +886,24 @@ def check_histories(res, seqs, results, stats):
                 break
             if got != want:
                 steps = original_prefix(orig, o[4]) + ([call] if orig[o[4]][0] == 'consumer' and call[0] != 'consumer' else [])
-                conf = confirm_pristine(steps) if stats.get('confirmations', 0) < 40 else None
-                stats['confirmations'] = stats.get('confirmations', 0) + 1
+                # a history of one call cannot depend on itself: that is interference from outside (other histories of the
+                # worker), the business of the perturb-then-probe stage.  Confirmations cost a pool start each: at most three
+                # per distinct call, none once a handful of witnesses exists.
+                tried = stats.setdefault('confirmations_per_call', {})
+                n_steps = len([c for c in steps if c[0] not in ('edit', 'newparser')])
+                if n_steps >= 2 and tried.get(call, 0) < 10 and stats.get('confirmed', 0) < 6 and stats.get('confirmations', 0) < 200:
+                    tried[call] = tried.get(call, 0) + 1
+                    stats['confirmations'] = stats.get('confirmations', 0) + 1
+                    conf = confirm_pristine(steps)
+                else:
+                    conf = None
                 if conf is None:
                     # not reproducible from a pristine library state: something outside this history interfered (earlier
                     # histories in the same worker); the perturb-then-probe stage looks for such leaks with their cause
                     stats['mismatches_not_confirmed_in_pristine_state'] = stats.get('mismatches_not_confirmed_in_pristine_state', 0) + 1
                     break
                 jj, ecall, cgot, cwant = conf
+                stats['confirmed'] = stats.get('confirmed', 0) + 1
                 res.witnesses.append({
                     'key': 'history:%s' % '|'.join(show_call(c) for c in steps), 'kind': 'history',
                     'calls': [list(c) for c in steps],
@@ -973,9 +983,14 @@ def histories(ctx, res, rng, stats):
     if full3:
         seqs += [list(t) for t in itertools.product(calls, repeat=3)]
     else:
-        # every triple of strings, the parse/evaluate pattern drawn per triple
-        for t in itertools.product(ALPHABET, repeat=3):
+        # every triple of the shallow strings, the parse/evaluate pattern drawn per triple; the engine-failing string
+        # between two uses of every string
+        shallow = [a for a in ALPHABET if a != DEEP]
+        for t in itertools.product(shallow, repeat=3):
             seqs.append([(rng.choice(['parse', 'eval']), s, None) for s in t])
+        for a in shallow:
+            for k2 in ('parse', 'eval'):
+                seqs.append([(rng.choice(['parse', 'eval']), a, None), (k2, DEEP, None), (rng.choice(['parse', 'eval']), a, None)])
     if ctx['tier'] == 'thorough':
         # every quadruple of strings, the parse/evaluate pattern drawn per quadruple
         for t in itertools.product(ALPHABET, repeat=4):
@@ -1280,7 +1295,7 @@ def patiently(fn, *a, **k):
 def names_stream(ctx, res, rng, stats):
     I = impl()
     ex, PR = I['ex'], I['ParseResults']
-    n = 1000 if ctx['tier'] == 'quick' else 12000
+    n = 700 if ctx['tier'] == 'quick' else 12000
     if ctx['escalate'] and ctx['tier'] == 'quick':
         n = 2500
     cases = []
@@ -1429,7 +1444,7 @@ def mutate(rng, s):
 
 
 def random_histories(ctx, res, rng, stats, rendered):
-    n = 600 if ctx['tier'] == 'quick' else 12000
+    n = 450 if ctx['tier'] == 'quick' else 12000
     if ctx['escalate'] and ctx['tier'] == 'quick':
         n = 1500
     base = list(ALPHABET) + [c[1] for c in EXTRA_CALLS if c[1]] + [r for r in rendered if len(r) <= 60][:400]
@@ -1642,7 +1657,7 @@ def run(ctx):
              'names_evaluated': 0}
     res.rule = ('histories: distinct call sequences of length >= 2 (a call = parse or evaluator with a string; the first call of a '
                 'sequence alone is the fresh reference); names: distinct rendered derivations with at least two name occurrences')
-    NFILES[0] = 16 if ctx['tier'] == 'thorough' else 8
+    NFILES[0] = 16 if ctx['tier'] == 'thorough' else 6
     saved = impl()['ex'].PARSER
     try:
         pool_seqs = []
@@ -1671,7 +1686,7 @@ def run(ctx):
         'exhaustive_sequences': stats.get('exhaustive_sequences'),
         'exhaustive_scope': ('all call sequences of length <= 2 over %d calls; ' % (len(alphabet_calls()) + len(EXTRA_CALLS))) +
                             ('all %d^3 call triples' % len(alphabet_calls()) if stats.get('exhaustive_len3_full') else
-                             'all %d^3 string triples with a drawn parse/evaluate pattern' % len(ALPHABET)) +
+                             'all %d^3 triples of the shallow strings with a drawn parse/evaluate pattern, the deep string between two uses of each' % (len(ALPHABET) - 1)) +
                             ('; all %d^4 string quadruples with a drawn pattern each' % len(ALPHABET) if ctx['tier'] == 'thorough' else ''),
         'sequences_not_observed_within_300s': stats.get('sequences_not_observed_within_300s', 0),
         'sequences_near_the_recursion_limit_dropped': stats.get('sequences_near_the_recursion_limit_dropped', 0),
